@@ -65,6 +65,10 @@ pub struct FaultState {
     /// contract-call log of the current tx: (contract address, kind)
     pub log_calls: bool,
     pub call_log: Vec<String>,
+    /// contracts whose query entry point is currently executing (outermost first)
+    pub query_stack: Vec<String>,
+    /// where the injected query fault fired: the query stack at that moment (outermost first)
+    pub query_fault_at: Vec<String>,
 }
 
 thread_local! {
@@ -131,7 +135,7 @@ fn tick_bank() -> AnyResult<()> {
     })
 }
 
-fn tick_query() -> AnyResult<()> {
+fn tick_query(addr: &str) -> AnyResult<()> {
     FAULTS.with(|f| {
         let mut f = f.borrow_mut();
         if !f.in_tx {
@@ -141,10 +145,31 @@ fn tick_query() -> AnyResult<()> {
         if let Fault::Query(k) = f.plan {
             if f.queries == k && !f.fired {
                 f.fired = true;
+                let mut at = f.query_stack.clone();
+                at.push(addr.to_string());
+                f.query_fault_at = at;
                 bail!("injected fault: query {k} fails");
             }
         }
         Ok(())
+    })
+}
+
+fn query_enter(addr: &str) {
+    FAULTS.with(|f| {
+        let mut f = f.borrow_mut();
+        if f.in_tx {
+            f.query_stack.push(addr.to_string());
+        }
+    })
+}
+
+fn query_leave() {
+    FAULTS.with(|f| {
+        let mut f = f.borrow_mut();
+        if f.in_tx {
+            f.query_stack.pop();
+        }
     })
 }
 
@@ -254,8 +279,12 @@ impl Contract<Empty> for Faulty {
         self.inner.instantiate(deps, env, info, msg)
     }
     fn query(&self, deps: Deps<Empty>, env: Env, msg: Vec<u8>) -> AnyResult<Binary> {
-        tick_query()?;
-        self.inner.query(deps, env, msg)
+        let addr = env.contract.address.to_string();
+        tick_query(&addr)?;
+        query_enter(&addr);
+        let r = self.inner.query(deps, env, msg);
+        query_leave();
+        r
     }
     fn sudo(&self, deps: DepsMut<Empty>, env: Env, msg: Vec<u8>) -> AnyResult<Response<Empty>> {
         self.inner.sudo(deps, env, msg)
@@ -537,6 +566,9 @@ pub struct TxResult {
     pub banks: u32,
     pub queries: u32,
     pub call_log: Vec<String>,
+    /// for a fired Fault::Query: the contracts whose queries were executing, outermost first,
+    /// ending with the contract whose query was made to fail
+    pub query_fault_at: Vec<String>,
 }
 
 /// Executes one atomic transaction (possibly several messages of one sender) under the given
@@ -590,6 +622,7 @@ pub fn tx_opt(
         banks: st.banks,
         queries: st.queries,
         call_log: st.call_log,
+        query_fault_at: st.query_fault_at,
     }
 }
 
